@@ -28,12 +28,24 @@ Fixpoint has_min64 (d : doc) : bool :=
   | _ => false
   end.
 
+(* known-finding class 4: the document holds an integer beyond the int64
+   maximum; go-toml parses it as uint64 and converts it into a signed field
+   without an overflow check (it wraps around) where the other three fail *)
+Fixpoint has_big64 (d : doc) : bool :=
+  match d with
+  | DInt z => (9223372036854775807 <? z)%Z
+  | DList l => existsb has_big64 l
+  | DMap kvs => existsb (fun kv => has_big64 (snd kv)) kvs
+  | _ => false
+  end.
+
 Definition one (w : bool) (f : format) (pfs : fields) (d : doc) (impl : outcome (list val)) : N :=
   let model := if w then decode_wrapped f d pfs else decode f d pfs in
   let spec := if w then spec_wrapped f d pfs else spec_decode f d pfs in
   if cout_eqb impl spec then (if cout_eqb impl model then 0 else 1)
   else match f, impl, spec with
        | FCue, Err _, Ok _ => if has_min64 d then 11 else 3
+       | FToml, Ok _, Err _ => if has_big64 d then 14 else 3
        | _, _, _ => 3
        end.
 
@@ -81,7 +93,8 @@ Definition check (c : c13case) : N :=
       | _, Ok _ =>                     (* library leniency on ill-typed corrupted documents: *)
           match fm with
           | FYaml => 0                 (* yaml.v2 reads any scalar into a string / TextUnmarshaler field *)
-          | FToml => if has_textu pfs then 0 else 3   (* go-toml: any scalar into a TextUnmarshaler field *)
+          | FToml => if has_textu pfs then 0          (* go-toml: any scalar into a TextUnmarshaler field *)
+                     else if has_big64 d then 14 else 3
           | _ => 3
           end
       | _, Err _ => 0
